@@ -327,10 +327,33 @@ class DTDCheck(Check):
                 out.append(case_txt(ndata, th, sc, w, h, spin, flags, tl))
         return out
 
+    def rr_cases(self, n):
+        """one task reading the same tile through several READ-ONLY parameters, inserted while the
+        writer before it is alive (hold until the wait point), completed (the wait point), then
+        groups of readers and a writer of that tile: every reader of the task must have been
+        counted once and released once (the other shapes of repeated tiles are known defects)"""
+        r = self.rng
+        out = []
+        for _ in range(n):
+            ndata = r.range(1, 3)
+            d = r.below(ndata)
+            t = [(d, "r")] * r.range(2, 4)
+            for e in range(ndata):
+                if e != d and r.chance(1, 2):
+                    t.insert(r.below(len(t) + 1), (e, "r"))
+            head = [[(e, "x")] for e in range(ndata)] + [t]
+            tail = []
+            for _ in range(r.range(6, 12)):
+                tail += [[(d, "r")]] * r.range(3, 6) + [[(d, r.pick(["x", "w"]))]]
+            txt = " ; ".join(task_txt(a) for a in head) + " ; ! ; " + " ; ".join(task_txt(a) for a in tail)
+            out.append("dtd %d %d %s 0 0 %d 2 | %s" % (ndata, r.pick([2, 3, 3, 4]), r.pick(["rnd", "rnd", "lfq", "ap"]),
+                                                       r.range(1, 1000), txt))
+        return out
+
     def cases(self):
         if self.tier == "quick":
-            return self.gen_cases(45, 60)
-        return self.gen_cases(400, 200)
+            return self.gen_cases(45, 60) + self.rr_cases(6)
+        return self.gen_cases(400, 200) + self.rr_cases(60)
 
     # ---- inputs of the known-defect classes: oracle only, never part of the differential stream
     def defect_cases(self):
